@@ -11,7 +11,7 @@ SPECS = [
          inputs=[("episode_start", "Z"), ("episode_length", "Z")]),
     dict(name="her_inval_slot", qual=_B + "add", start=r"^episode_indices = ", end=None, kind="expr", ret="Z",
          inputs=[("t", "Z"), ("buffer_size", "Z")],
-         subst={"np.arange(self.pos, episode_end)": "t", "self.buffer_size": "buffer_size"}),
+         subst={"self.buffer_size": "buffer_size"}, subst_calls={r"np\.arange": "t"}),
     dict(name="her_inval_value", qual=_B + "add", start=r"^self\.ep_length\[episode_indices, env_idx\] = ", end=None, kind="expr", ret="Z", inputs=[]),
     # _compute_episode_length
     dict(name="her_close_bounds", qual=_B + "_compute_episode_length", start=r"^episode_start = ", end=r"^if (not )?\(?episode_end\b",
@@ -20,7 +20,7 @@ SPECS = [
          outputs=[("episode_start", "Z"), ("episode_end", "Z")]),
     dict(name="her_close_slot", qual=_B + "_compute_episode_length", start=r"^episode_indices = ", end=None, kind="expr", ret="Z",
          inputs=[("t", "Z"), ("buffer_size", "Z")],
-         subst={"np.arange(episode_start, episode_end)": "t", "self.buffer_size": "buffer_size"}),
+         subst={"self.buffer_size": "buffer_size"}, subst_calls={r"np\.arange": "t"}),
     dict(name="her_close_length", qual=_B + "_compute_episode_length", start=r"^self\.ep_length\[episode_indices, env_idx\] = ", end=None,
          kind="expr", ret="Z", inputs=[("episode_start", "Z"), ("episode_end", "Z")]),
     dict(name="her_close_new_start", qual=_B + "_compute_episode_length", start=r"^self\._current_ep_start\[env_idx\] = ", end=None,
@@ -33,14 +33,29 @@ SPECS = [
     dict(name="her_virtual_product", qual=_B + "sample", start=r"^nb_virtual = ", end=None, kind="subexpr", pick=r"(?!int\b).*self\.her_ratio.*",
          ret="Q", inputs=[("ratio", "Q"), ("batch_size", "Z")], subst={"self.her_ratio": "ratio"}),
     # _sample_goals
-    dict(name="her_goal_final", qual=_B + "_sample_goals", start=r"^transition_indices_in_episode = (?!np\.random)", end=None, kind="expr", ret="Z",
+    dict(name="her_goal_final", qual=_B + "_sample_goals", start=r"^transition_indices_in_episode = ", nth=0, of=3, end=None, kind="expr", ret="Z",
          inputs=[("batch_ep_length", "Z")]),
     dict(name="her_goal_current", qual=_B + "_sample_goals", start=r"^current_indices_in_episode = ", end=None, kind="expr", ret="Z",
          inputs=[("batch_indices", "Z"), ("batch_ep_start", "Z"), ("buffer_size", "Z")], subst={"self.buffer_size": "buffer_size"}),
-    dict(name="her_goal_future_draw", qual=_B + "_sample_goals", start=r"^transition_indices_in_episode = np\.random\.randint\((?!0\b)", end=None, kind="expr", ret="Z",
-         inputs=[("choice", "Z")], subst={"np.random.randint(current_indices_in_episode, batch_ep_length)": "choice"}),
-    dict(name="her_goal_episode_draw", qual=_B + "_sample_goals", start=r"^transition_indices_in_episode = np\.random\.randint\(0\b", end=None, kind="expr", ret="Z",
-         inputs=[("choice", "Z")], subst={"np.random.randint(0, batch_ep_length)": "choice"}),
+    # the bounds of the two random goal draws are the ARGUMENTS of the randint calls; the draw is used as it is
+    *[dict(name=f"her_goal_{nm}_{b_}", qual=_B + "_sample_goals", start=r"^transition_indices_in_episode = ", nth=k, of=3, end=None, kind="callarg",
+           call=r"np\.random\.randint", arg=a_, ret="Z", inputs=[("current_indices_in_episode", "Z"), ("batch_ep_length", "Z")])
+      for k, nm in ((1, "future"), (2, "episode")) for b_, a_ in (("lo", 0), ("hi", 1))],
+    dict(name="her_goal_future_draw", qual=_B + "_sample_goals", start=r"^transition_indices_in_episode = ", nth=1, of=3, end=None, kind="expr", ret="Z",
+         inputs=[("choice", "Z")], subst_calls={r"np\.random\.randint": "choice"}),
+    dict(name="her_goal_episode_draw", qual=_B + "_sample_goals", start=r"^transition_indices_in_episode = ", nth=2, of=3, end=None, kind="expr", ret="Z",
+         inputs=[("choice", "Z")], subst_calls={r"np\.random\.randint": "choice"}),
+    # which strategy each branch serves (codes: 1 FINAL, 2 FUTURE, 3 EPISODE), in document order
+    *[dict(name=f"her_goal_branch{k}", qual=_B + "_sample_goals", start=r"^if self\.goal_selection_strategy\b", nth=k, of=3, end=None, kind="subexpr", scope="test",
+           pick=r"GoalSelectionStrategy\.\w+", names={"GoalSelectionStrategy.FINAL": 1, "GoalSelectionStrategy.FUTURE": 2, "GoalSelectionStrategy.EPISODE": 3}, inputs=[])
+      for k in range(3)],
+    # where the new goal is read from: next_observations["achieved_goal"] at (goal slot, env)
+    dict(name="her_goal_source", qual=_B + "_sample_goals", start=r"^return ", end=None, kind="subexpr", pick=r"self\.\w+\['\w+'\]",
+         names={"self.next_observations['achieved_goal']": 1}, inputs=[]),
+    dict(name="her_goal_source_slot", qual=_B + "_sample_goals", start=r"^return ", end=None, kind="subscript_index", array=r"self\.\w+\['\w+'\]", axis=0, ret="Z",
+         inputs=[("transition_indices", "Z"), ("env_indices", "Z")]),
+    dict(name="her_goal_source_env", qual=_B + "_sample_goals", start=r"^return ", end=None, kind="subscript_index", array=r"self\.\w+\['\w+'\]", axis=1, ret="Z",
+         inputs=[("transition_indices", "Z"), ("env_indices", "Z")]),
     dict(name="her_goal_slot", qual=_B + "_sample_goals", start=r"^transition_indices = ", end=None, kind="expr", ret="Z",
          inputs=[("transition_indices_in_episode", "Z"), ("batch_ep_start", "Z"), ("buffer_size", "Z")], subst={"self.buffer_size": "buffer_size"}),
     # truncate_last_trajectory: which columns are closed, which slot is marked
@@ -49,4 +64,41 @@ SPECS = [
          inputs=[("cur_start", "Z"), ("pos", "Z")], subst={"self._current_ep_start": "cur_start", "self.pos": "pos"}),
     dict(name="her_trunc_slot", qual=_B + "truncate_last_trajectory", start=r"^self\.dones\[", end=None,
          kind="subexpr", pick=r"self\.pos( [-+] \d+)?", ret="Z", inputs=[("pos", "Z")], subst={"self.pos": "pos"}),
+    # bounds of the np.arange calls (first slot, end) of the invalidation and of _compute_episode_length
+    dict(name="her_inval_from", qual=_B + "add", start=r"^episode_indices = ", end=None, kind="callarg", call=r"np\.arange", arg=0, ret="Z",
+         inputs=[("pos", "Z"), ("episode_end", "Z")], subst={"self.pos": "pos"}),
+    dict(name="her_inval_to", qual=_B + "add", start=r"^episode_indices = ", end=None, kind="callarg", call=r"np\.arange", arg=1, ret="Z",
+         inputs=[("pos", "Z"), ("episode_end", "Z")], subst={"self.pos": "pos"}),
+    dict(name="her_inval_which", qual=_B + "add", start=r"^self\.ep_length\[episode_indices, env_idx\] = ", end=None, kind="subscript_index", array=r"self\.ep_length", axis=0,
+         names={"episode_indices": 1}, inputs=[]),
+    dict(name="her_inval_reads_start", qual=_B + "add", start=r"^episode_start = ", end=None, kind="subscript_index", array=r"self\.ep_start", axis=0, ret="Z",
+         inputs=[("pos", "Z")], subst={"self.pos": "pos"}),
+    dict(name="her_inval_reads_length", qual=_B + "add", start=r"^episode_length = ", end=None, kind="subscript_index", array=r"self\.ep_length", axis=0, ret="Z",
+         inputs=[("pos", "Z")], subst={"self.pos": "pos"}),
+    dict(name="her_close_from", qual=_B + "_compute_episode_length", start=r"^episode_indices = ", end=None, kind="callarg", call=r"np\.arange", arg=0, ret="Z",
+         inputs=[("episode_start", "Z"), ("episode_end", "Z")]),
+    dict(name="her_close_to", qual=_B + "_compute_episode_length", start=r"^episode_indices = ", end=None, kind="callarg", call=r"np\.arange", arg=1, ret="Z",
+         inputs=[("episode_start", "Z"), ("episode_end", "Z")]),
+    # add(): ep_start[pos] = _current_ep_start; episodes are closed exactly for the columns whose done flag is set
+    dict(name="her_ep_start_slot", qual=_B + "add", start=r"^self\.ep_start\[", end=None, kind="subscript_index", array=r"self\.ep_start", axis=0, ret="Z",
+         inputs=[("pos", "Z")], subst={"self.pos": "pos"}),
+    dict(name="her_ep_start_value", qual=_B + "add", start=r"^self\.ep_start\[", end=None, kind="callarg", call=r"self\.\w+\.copy", arg="@receiver",
+         names={"self._current_ep_start": 1}, inputs=[]),
+    dict(name="her_close_guard", qual=_B + "add", start=r"^if (not )?\(?done\b", end=None, kind="test", inputs=[("done_e", "bool")], subst={"done[env_idx]": "done_e"}),
+    dict(name="her_close_guard_arg", qual=_B + "add", start=r"^if (not )?\(?done\b", end=None, kind="callarg", call=r"self\._compute_episode_length", arg=0,
+         names={"env_idx": 1}, inputs=[]),
+    # truncate_last_trajectory: slots of the done / timeout marks, and that the timeout mark is conditional on handle_timeout_termination
+    dict(name="her_trunc_to_slot", qual=_B + "truncate_last_trajectory", start=r"^self\.timeouts\[", end=None, kind="subscript_index", array=r"self\.timeouts", axis=0, ret="Z",
+         inputs=[("pos", "Z")], subst={"self.pos": "pos"}),
+    dict(name="her_trunc_to_guard", qual=_B + "truncate_last_trajectory", start=r"^if (not )?\(?self\.handle_timeout_termination", end=None, kind="test",
+         inputs=[("hto", "bool")], subst={"self.handle_timeout_termination": "hto"}),
+    # _get_virtual_samples: the goal is written into both observations; compute_reward(next achieved goal, new desired goal, infos)
+    dict(name="her_relabel_obs_key", qual=_B + "_get_virtual_samples", start=r"^obs\['desired_goal'\] = |^obs\[.*\] = new_goals", end=None, kind="subexpr",
+         pick=r"obs\['\w+'\]", names={"obs['desired_goal']": 1}, inputs=[]),
+    dict(name="her_relabel_next_key", qual=_B + "_get_virtual_samples", start=r"^next_obs\[.*\] = ", end=None, kind="subexpr",
+         pick=r"next_obs\['\w+'\]", names={"next_obs['desired_goal']": 1}, inputs=[]),
+    dict(name="her_relabel_next_value", qual=_B + "_get_virtual_samples", start=r"^next_obs\[.*\] = ", end=None, kind="subexpr",
+         pick=r"new_goals|obs\['\w+'\]", names={"new_goals": 1}, inputs=[]),
+    *[dict(name=f"her_reward_arg{k}", qual=_B + "_get_virtual_samples", start=r"^rewards = self\.env\.env_method", end=None, kind="callarg", call=r"self\.env\.env_method", arg=k,
+           names={"'compute_reward'": 1, "next_obs['achieved_goal']": 2, "obs['desired_goal']": 3, "infos": 4}, inputs=[]) for k in range(4)],
 ]
